@@ -20,7 +20,9 @@ Replacements == {NStr(T_x), NStr(<<>>), NInt(5), NInt(0 - 1), NFloat(3, 2), NBoo
                  \* well-formed texts of days that do not exist
                  NStr(<<50,48,50,51,45,48,50,45,51,48>>), NStr(<<50,48,50,51,47,54,47,51,49>>), NStr(<<50,49,48,48,45,48,50,45,50,57>>)}     \* 2023-02-30  2023/6/31  2100-02-29
 \* key markers understood by the driver: \x01i = integer 5, \x01b = true, \x01n = null
-Keys == {T_x, <<>>, <<1, 105>>, <<1, 98>>, <<1, 110>>, <<120, 124, 122, 122>>}
+\* ... and keys named like parameters of the loading functions themselves: source, custom_attributes, self
+Keys == {T_x, <<>>, <<1, 105>>, <<1, 98>>, <<1, 110>>, <<120, 124, 122, 122>>,
+         <<115, 111, 117, 114, 99, 101>>, <<99, 117, 115, 116, 111, 109, 95, 97, 116, 116, 114, 105, 98, 117, 116, 101, 115>>, <<115, 101, 108, 102>>}
 Base == CASE Shard = 1 -> BaseRule [] Shard = 2 -> BaseCorr [] Shard = 3 -> BaseCorrExt [] OTHER -> BaseFilter
 Kind == CASE Shard = 1 -> "rule" [] Shard \in {2, 3} -> "corr" [] OTHER -> "filter"
 IsEntry(p) == p # <<>> /\ p[Len(p)][1] = "k"
